@@ -130,3 +130,15 @@ PROPS['C14']={
   {'name':'pae_maxlen','module':'harness.C20','cls':'UnpackTotal','quick':{'n':2,'shape':'maxlen'},'thorough':{'n':3,'shape':'maxlen'}},
   {'name':'pae_maxlen2','module':'harness.C20','cls':'UnpackTotal','quick':{'n':2,'shape':'maxlen2'},'thorough':{'n':3,'shape':'maxlen2'}},
  ]}
+
+WIRE_ASSUME=UNIT_ASSUME+['serde data models: Serializer (Python model of serde_json::value::Serializer) and Deserializer (one model of serde_json\'s from_str/from_slice/from_reader/from_value over a Value tree plus a channel tag; a borrowed &str request succeeds only for an unescaped string of from_str/from_slice; owned String requests always succeed); the crate\'s Serialize/Deserialize impls and derive-generated visitors (incl. flatten, untagged, deserialize_with) run from MIR against them',
+  'the JSON text layer itself (tokenizer, whitespace, number syntax, recursion limit) is serde_json\'s and outside the claim; native replay runs every sample through the real from_str / escaped text / from_reader / from_value / from_slice / pretty text']
+WIRE_TYPES_Q=['rule','command','vpath','keyid','keytype','hashvalue','byproducts','step','inspection','signature','pubkey','link','layout','metablock','wrapper']
+PROPS['C17']={
+ 'bounds_statement':'for every wire type of the crate (rule, command, path, key id/type, hash value, byproducts incl. the flattened map, step, inspection, signature, public key, link, layout, signed block, untagged wrapper): the serialised form of a value with free string/number leaves is decoded on four channels (borrowed text, escaped text, reader, tree); acceptance and value must coincide.',
+ 'assumptions':WIRE_ASSUME,
+ 'obligations':[{'name':w,'module':'harness.wire','cls':'RoundTrip','quick':{'what':w,'prop':'C17','nbytes':1},'thorough':{'what':w,'prop':'C17','nbytes':2},'validate':{'quick':6,'thorough':24}} for w in WIRE_TYPES_Q]}
+PROPS['C16']={
+ 'bounds_statement':'same pipeline as C17, asserting serialise -> parse = identity (value equality through the crate\'s own PartialEq-equivalent structure) for every wire type incl. every rule form with keyword-like operands (IN, WITH, FROM, MATCH, trailing-slash prefixes), optional fields present/absent, empty collections, key table self-consistency; byte-identical re-serialisation follows from value equality because serialisation is a function of the value.',
+ 'assumptions':WIRE_ASSUME+['Unicode beyond ASCII in free strings is covered by fixed samples only; pretty printing is serde_json\'s'],
+ 'obligations':[{'name':w,'module':'harness.wire','cls':'RoundTrip','quick':{'what':w,'prop':'C16','nbytes':1},'thorough':{'what':w,'prop':'C16','nbytes':2},'validate':{'quick':6,'thorough':24}} for w in WIRE_TYPES_Q]}
